@@ -48,7 +48,7 @@ pub fn run(tape: &[u8], cx: &Cx) -> Outcome {
     let (ta, tb) = tape.split_at(tape.len() / 3);
     let mut t = Tape::new(ta);
     let mut tp = Tape::new(tb);
-    let prog = Prog::decode(&mut tp, &cfg());
+    let prog = Prog::decode(&mut tp, &cfg().scaled(cx.thorough));
     let mut o = Outcome::default();
     o.digest = fnv(&prog.digest_bytes());
     let RxCase { prog, mut mgr, terms, dfas } = match rx::setup(prog.clone()) {
@@ -67,7 +67,9 @@ pub fn run(tape: &[u8], cx: &Cx) -> Outcome {
         None => return Outcome::discarded("reference DFA too big"),
     };
     let last = prog.ins.len() - 1;
-    let other = t.choose(prog.ins.len());
+    // second compiled slot: the one with the most derivative classes, or a random one
+    let richest = (0..prog.ins.len()).max_by_key(|&i| (terms[i].num_deriv_classes(), i)).unwrap();
+    let other = if t.flag() { richest } else { t.choose(prog.ins.len()) };
     let strings = sample_strings(&mut t, &prog.atoms, Some(&dfas[last]), 5, 8);
     if cx.render {
         o.render = format!("{} ; compiled slots r{} r{} ; strings {}", prog.render(), last, other, strings.iter().map(|s| show_str(s)).collect::<Vec<_>>().join(" "));
